@@ -9,7 +9,7 @@ package v2
 // Verified with safety obligations: the batch may contain null entries (the generated validation skips them - a genuine
 // panic was repaired, see known_findings.txt); a null entry yields an alert without labels, which validation rejects.
 //@ func OpenAPIAlertsToAlerts
-//@   props C13
+//@   props C13 C14 C05
 //@   requires tracer != nil
 //@   after call Tracer).Start assume res0 != nil && res1 != nil
 //@   ensures [one-alert-per-entry] fresh(result) && len(result) == len(apiAlerts) && (forall i int :: 0 <= i && i < len(result) ==> result[i] != nil && fresh(result[i]) && !result[i].Timeout)
